@@ -17,6 +17,7 @@ class Outcome:
   def __init__(self):
     self.model_bytes = None
     self.model_arg = None
+    self.batched = False
     self.qt = None
     self.accepted = []      # rule specs accepted by the API
     self.refused = []       # (rule spec, exception)
@@ -72,6 +73,29 @@ def calibration_data(model_spec, sg_index, seeds):
   return [G.make_inputs(model_spec, sg_index, s) for s in seeds]
 
 
+def batched(model_bytes, mspec, si, seeds, b, out=None):
+  """Calibration samples with a leading batch of b instead of 1 (the signature
+  runner resizes the inputs), or None when the float model itself cannot run at
+  that batch size (reshape to a constant shape, batch-matmul operands, ...)."""
+  from vq import interp
+  sg = mspec['subgraphs'][si]
+  data = []
+  for s in seeds:
+    parts = [G.make_inputs(mspec, si, s * 31 + j) for j in range(b)]
+    if any(v.ndim < 2 or v.shape[0] != 1 for v in parts[0].values()):
+      return None
+    data.append({k: np.concatenate([p[k] for p in parts], axis=0) for k in parts[0]})
+  try:
+    it = interp.make(model_bytes)
+    for d in data:
+      interp.run_signature(it, sg['sig'], d)
+  except Exception:  # pylint: disable=broad-except
+    return None
+  if out is not None:
+    out.batched = True
+  return data
+
+
 def run(case, stop_after=None):
   """Executes the case; never raises for exceptions of the code under test."""
   out = Outcome()
@@ -111,6 +135,8 @@ def run(case, stop_after=None):
     res = None
     for si, sg in enumerate(mspec['subgraphs']):
       data = calibration_data(mspec, si, seeds)
+      if case.get('calib_batch'):
+        data = batched(out.model_bytes, mspec, si, seeds, case['calib_batch'], out) or data
       ok, r = core.call(qt.calibrate, data, sg['sig'], res)
       if not ok:
         out.calib_exc = r
@@ -208,6 +234,9 @@ def cases(draw, model_kw=None, recipe_kind='mixed', max_rules=5, cfg_pool=None,
           'calib_seeds': [draw(st.integers(0, 999)) for _ in range(n)],
           'input_seed': draw(st.integers(0, 999))}
   draw(usage_dimensions(case))
+  if draw(st.integers(0, 5)) == 0:
+    # calibration samples with a batch of 2 or 3 where the model stores 1
+    case['calib_batch'] = draw(st.sampled_from([2, 3]))
   return case
 
 
